@@ -359,15 +359,22 @@ theorem msg_state (A : TAuto σ) (hR : Realises A) (H : SelfDelimiting A) (P : M
       simp only [List.mem_singleton] at hin
       exact ⟨hterm', by simp [TAuto.leastTag, hT, htag, hin]⟩
 
-theorem print_ne_nil (P : Msg → Prop) (hM : MemberOf P) (m : Msg) (hp : P m) (hv : m.Valid) : print m ≠ [] := by
-  intro h
-  have hmem := hM m hp
-  rw [h] at hmem
-  -- no grammar matches the empty word: the combined automaton would accept it, but its start state is
-  -- not accepting; cheaper: decide per family with the verified matcher
-  have : (grammar m.family).matchB (bytes []) = true := (C15_matchB _ _).mpr hmem
-  revert this
-  cases m.family <;> decide
+theorem print_ne_nil (m : Msg) (hv : m.Valid) : print m ≠ [] := by
+  cases m with
+  | key i =>
+    obtain ⟨p, hpk, hl, _⟩ := proto_entry i hv
+    obtain ⟨e, he, hw, _⟩ := lookup_entry _ _ hl
+    rw [key_print i p hpk, ← hw]
+    intro h0
+    have := List.all_eq_true.mp keyTable_shape e he
+    rw [h0] at this
+    simp [keyShape] at this
+  | text c =>
+    simp only [print]
+    unfold SurfModel.Vt.utf8
+    repeat' split
+    all_goals simp
+  | _ => simp [print, CSI]
 
 /-! ## streams -/
 
@@ -401,7 +408,7 @@ theorem stream (A : TAuto σ) (hT : A.toAuto.TermOk) (hR : Realises A) (H : Self
     obtain ⟨hp, hv, hna, hterm⟩ := hms m (by simp)
     obtain ⟨q, hrun, hacc, hterm', htag⟩ := msg_state A hR H P hM m hp hv hna hterm
     have hne : bytes (print m) ≠ [] := by
-      have := print_ne_nil P hM m hp hv
+      have := print_ne_nil m hv
       intro h; apply this
       cases hpm : print m with
       | nil => rfl
